@@ -905,7 +905,7 @@ int bufr_check_sequence
       bufr_print_debug( errmsg );
       return -1;
       }
-   if (repl_active > 1)
+   if (repl_active != 0)
       {
       sprintf( errmsg, _("Error: bad replication code count in dataset definition\n") );
       bufr_print_debug( errmsg );
